@@ -158,7 +158,10 @@ def run_one(prop, tier, run, idx, shard, nshards, base_seed, scratch, replay=Non
         args += ["-rapid.failfile=" + replay]
     if run.get("fuzz") and tier == "thorough" and not replay:
         args = [binp, "-test.run", "^$", "-test.fuzz", run["fuzz"], "-test.fuzztime", run.get("fuzztime", "60s"),
-                "-test.fuzzcachedir", os.path.join(cwd, "fuzzcache"), "-test.timeout", "%ds" % timeout]
+                "-test.fuzzcachedir", os.path.join(cwd, "fuzzcache"), "-test.timeout", "%ds" % timeout,
+                "-test.parallel", str(run.get("fuzzworkers", 4))]
+    if replay and run.get("fuzz"):
+        args = [binp, "-test.run", run["run"], "-test.timeout", "%ds" % timeout, "-test.count=1"]
     env = dict(ENV)
     env.update({"VERIF_TIER": tier, "VERIF_STATS": stats, "VERIF_JOURNAL": journal,
                 "VERIF_SEED_DERIVED": str(seed), "VERIF_SCRATCH": cwd})
@@ -180,6 +183,15 @@ def run_one(prop, tier, run, idx, shard, nshards, base_seed, scratch, replay=Non
         f.write(out)
     res = {"rc": rc, "wall": wall, "cwd": cwd, "stats": stats, "journal": journal, "out": out, "seed": seed,
            "pkg": pkg, "run": run, "checks": per}
+    if run.get("fuzz") and tier == "thorough" and not replay:
+        execs = [int(x) for x in re.findall(r"execs: (\d+)", out)]
+        inter = [int(x) for x in re.findall(r"new interesting: (\d+)", out)]
+        total = [int(x) for x in re.findall(r"new interesting: \d+ \(total: (\d+)\)", out)]
+        with open(stats, "a") as f:
+            f.write(json.dumps({"sub": "fuzz:" + run["fuzz"].strip("^$"), "evals": max(execs or [0]),
+                                "nontrivial_total": max(inter or [0]), "classes": {"corpus_total": max(total or [0])},
+                                "distinct_hashes": [], "samples": [],
+                                "rule": "coverage-guided native fuzzing (%s, %s workers) of one entry function with the semantic oracle inside the target; evaluations = executions reported by the fuzzer; non-trivial = inputs that reached new coverage; not pinned by VERIF_SEED (only a saved failing input is reproducible)" % (run.get("fuzztime", "60s"), run.get("fuzzworkers", 4))}) + "\n")
     if run.get("race"):
         res["race"] = parse_race_logs(cwd)
         if rc != 0 and "race detected during execution of test" in out and "--- FAIL" in out:
@@ -349,6 +361,18 @@ def do_replay(prop, path):
         name = max(tests, key=len) if tests else None
         if name:
             r["run"] = "^" + "$/^".join(re.escape(x) for x in name.split("/")) + "$"
+        res = run_one(prop, "quick", r, 0, 0, 1, 1, scratch, replay=path)
+    elif kind == "fuzz-input":
+        target = meta.get("test_dir") or tdir
+        d = os.path.join(scratch, "run0_0", "testdata", "fuzz", target)
+        os.makedirs(d, exist_ok=True)
+        shutil.copy(path, os.path.join(d, "replayinput"))
+        for cand in CHECKS[prop]["runs"]:
+            if cand.get("fuzz") and cand["fuzz"].strip("^$") == target:
+                r = dict(cand)
+        r["run"] = "^%s$/^replayinput$" % target
+        r["fuzz"] = r.get("fuzz") or target
+        r["rapid"] = False
         res = run_one(prop, "quick", r, 0, 0, 1, 1, scratch, replay=path)
     elif kind == "crash-journal":
         r["env"] = dict(r.get("env", {}))
